@@ -333,24 +333,6 @@ theorem circshift_spec (filt : List ℂ) (shift : ℤ) (start : ℕ) (dft : Opti
   simp only [hrun, shiftRed]
   rw [idftSeg_shift _ hD, idftSeg_emod _ hD]
 
-open Circ in
-/-- The documented one-liner `circshift_fourier(X, shift)` on a full spectrum, in textbook form:
-`idft(out)[n] = idft(X)[(n − shift) mod D]` with `idft Y n = (1/D) Σ_{k<D} Y[k] e^{2πikn/D}`. -/
-theorem circshift_spec_fullband (X : List ℂ) (shift : ℤ) (copy c128 : Bool) (r : Result ℂ)
-    (hr : run mulPhaseC X shift 0 none copy c128 = .ok r) (n : ℤ) :
-    idft r.out n = idft X ((n - shift) % (X.length : ℤ)) := by
-  have hlen := circshift_out_len _ _ _ _ _ _ _ r hr
-  have hD : X.length ≠ 0 := by
-    intro h0
-    unfold run plan at hr
-    simp [dftSize, h0] at hr
-  have hp : plan X.length shift 0 none = .ok ⟨X.length, shiftRed shift X.length, bins X.length 0 X.length⟩ := by
-    unfold plan; simp [dftSize, hD]
-  have := circshift_spec X shift 0 none copy c128 _ r hp hr n
-  simp only [] at this
-  rw [idftSeg_fullband] at this
-  rw [← this, ← hlen, idftSeg_fullband]
-
 /-- the `(cos θ, sin θ)` pair arithmetic the driver runs at `Float` is, at `ℝ`, multiplication by the
 complex exponential `circshift_spec` is about -/
 theorem circshift_model_phase (x : ℂ) (s : ℤ) (D k : ℕ) :
@@ -413,6 +395,24 @@ theorem circshift_out_len {β : Type} (f : β → ℤ → ℕ → ℕ → β) (f
   · rename_i p hp
     have hlen := (circshift_plan_bounds _ _ _ _ p hp).2.2.1
     split_ifs at hr <;> cases hr <;> simp [hlen]
+
+open Circ in
+/-- The documented one-liner `circshift_fourier(X, shift)` on a full spectrum, in textbook form:
+`idft(out)[n] = idft(X)[(n − shift) mod D]` with `idft Y n = (1/D) Σ_{k<D} Y[k] e^{2πikn/D}`. -/
+theorem circshift_spec_fullband (X : List ℂ) (shift : ℤ) (copy c128 : Bool) (r : Result ℂ)
+    (hr : run mulPhaseC X shift 0 none copy c128 = .ok r) (n : ℤ) :
+    idft r.out n = idft X ((n - shift) % (X.length : ℤ)) := by
+  have hlen := circshift_out_len _ _ _ _ _ _ _ r hr
+  have hD : X.length ≠ 0 := by
+    intro h0
+    unfold run plan at hr
+    simp [dftSize, h0] at hr
+  have hp : plan X.length shift 0 none = .ok ⟨X.length, shiftRed shift X.length, bins X.length 0 X.length⟩ := by
+    unfold plan; simp [dftSize, hD]
+  have := circshift_spec X shift 0 none copy c128 _ r hp hr n
+  simp only [] at this
+  rw [idftSeg_fullband] at this
+  rw [← this, ← hlen, idftSeg_fullband]
 
 example : ∃ r, run Circ.mulPhaseC [1, Complex.I, 2] (-7) 2 none true true = .ok r := ⟨_, rfl⟩
 example : ∃ r, run Circ.mulPhaseC [1, Complex.I, 2] 5 0 none false true = .ok r ∧ r.sameObject = true := ⟨_, rfl, rfl⟩
